@@ -194,6 +194,9 @@ class Interp:
         out[tuple(slice(lo, lo + n) for n, (lo, hi, _) in zip(x.shape, cfg))] = x
         return out
 
+    def p_tile(self, e, x):
+        return np.tile(x, tuple(e.params["reps"]))
+
     def p_rev(self, e, x):
         return np.flip(x, axis=tuple(e.params["dimensions"]))
 
